@@ -39,37 +39,9 @@ def record(scene_list, rng):
     from distance3d import colliders as C, gjk
     from . import narrow as NW
 
-    class Rec(C.ConvexCollider):
-        def __init__(self, inner, log):
-            super().__init__(None)
-            self.inner, self.log = inner, log
-
-        def make_artist(self, c=None):
-            pass
-
-        def first_vertex(self):
-            p = self.inner.first_vertex()
-            self.log.append(("f", np.array(p, dtype=float)))
-            return p
-
-        def support_function(self, d):
-            p = self.inner.support_function(d)
-            self.log.append(("s", np.array(p, dtype=float)))
-            if len(self.log) > 400:
-                raise NW.SupportBudget()
-            return p
-
-        def center(self):
-            return self.inner.center()
-
-        def update_pose(self, pose):
-            self.inner.update_pose(pose)
-
-        def aabb(self):
-            return self.inner.aabb()
-
-        def collider2origin(self):
-            return self.inner.collider2origin()
+    def Rec(inner, log):
+        # instance-level tap: the library sees the ConvexHullVertices object itself (see narrow.tap)
+        return NW.tap(inner, log, 400, "fs")
 
     def lat(w):
         wi = [int(round(x)) for x in w]
